@@ -32,48 +32,50 @@ func envOr(k, d string) string {
 
 // Oblig is one harness entry point with its bounds.
 type Oblig struct {
-	Harness  string         // harness function (vh_...)
-	Globals  map[string]int // harness int variables set before running (bounds)
-	BVMode   bool           // machine integers as bit-vectors (default: Int encoding)
-	Unroll   int
-	MaxPaths int
-	Solver   string // override primary solver
-	FP32As   int
-	TimeoutMs int
-	Setup    func(e *sym.Engine)
-	Note     string
-	Budget   time.Duration
-	NoRedirect bool // run without the property's redirects (real callees)
+	Harness       string         // harness function (vh_...)
+	Globals       map[string]int // harness int variables set before running (bounds)
+	BVMode        bool           // machine integers as bit-vectors (default: Int encoding)
+	Unroll        int
+	MaxPaths      int
+	Solver        string // override primary solver
+	FP32As        int
+	TimeoutMs     int
+	Setup         func(e *sym.Engine)
+	Note          string
+	Budget        time.Duration
+	NoRedirect    bool     // run without the property's redirects (real callees)
 	KeepRedirects []string // if set, only these redirects (by target model name) stay active
 	DropRedirects []string // redirects (by target model name) switched off for this obligation
 }
 
 // Prop describes how one property is checked.
 type Prop struct {
-	ID        string
-	PkgDir    string   // package directory relative to repo ("interp")
-	PkgPath   string   // import path
-	PkgName   string
-	Harness   []string // files under /verif/harness
-	Redirects map[string]string
+	ID         string
+	PkgDir     string // package directory relative to repo ("interp")
+	PkgPath    string // import path
+	PkgName    string
+	Harness    []string // files under /verif/harness
+	Redirects  map[string]string
 	InlinePkgs []string
 	InitFiles  map[string][]string // dependency package -> files whose init functions are executed
-	Obligs    func(tier string) []Oblig
-	Setup     func(e *sym.Engine)
-	Solver    string // primary solver for this property's obligations
+	GenAST     bool                // run TestVerifDumpAST natively first and compile the tree builders it prints into the harness
+	E2EDir     string              // harness/<dir>/*.go.txt: whole programs; each is also compiled as a twin package (the reference)
+	Obligs     func(tier string) []Oblig
+	Setup      func(e *sym.Engine)
+	Solver     string // primary solver for this property's obligations
 	// Validate runs the native validation test (translator, summaries, oracle
 	// restatements) and returns the number of vectors pushed through.
-	ValidateRun string // go test -run pattern in the overlay test file ("" = none)
-	ObserveBV bool // also validate the observations with machine integers as bit-vectors
-	ObserveHarness []string // harness functions run natively AND through the engine on concrete vectors; their observations must agree
-	TestFiles []string // extra _test overlay files under /verif/harness
-	Instrument []Instr // textual instrumentation of repo files, applied in the overlay (symbolic and native alike)
-	ReplayRace bool // replay under the race detector; a DATA RACE report reproduces "readonly" obligations
-	Custom    func(p *Prop, tier string, seed int, evPath string) int // property-specific driver
-	Bounds    []string
-	Assumptions []string
-	Outside   []string
-	Stubs     []string
+	ValidateRun    string                                                  // go test -run pattern in the overlay test file ("" = none)
+	ObserveBV      bool                                                    // also validate the observations with machine integers as bit-vectors
+	ObserveHarness []string                                                // harness functions run natively AND through the engine on concrete vectors; their observations must agree
+	TestFiles      []string                                                // extra _test overlay files under /verif/harness
+	Instrument     []Instr                                                 // textual instrumentation of repo files, applied in the overlay (symbolic and native alike)
+	ReplayRace     bool                                                    // replay under the race detector; a DATA RACE report reproduces "readonly" obligations
+	Custom         func(p *Prop, tier string, seed int, evPath string) int // property-specific driver
+	Bounds         []string
+	Assumptions    []string
+	Outside        []string
+	Stubs          []string
 }
 
 // Instr replaces one exact occurrence of Old by New in a repository file.
@@ -108,6 +110,7 @@ func loadKnownFindings() []knownFinding {
 type scratch struct {
 	dir     string
 	overlay map[string]string // virtual path -> real path
+	genPkgs []string          // import paths of generated twin packages (inlined by the engine)
 }
 
 func newScratch(p *Prop, withTests bool) (*scratch, map[string][]byte, error) {
@@ -145,6 +148,61 @@ func newScratch(p *Prop, withTests bool) (*scratch, map[string][]byte, error) {
 			return nil, nil, err
 		}
 		if err := add("zz_verif_"+strings.ToLower(strings.TrimSuffix(h, ".go"))+".go", b); err != nil {
+			return nil, nil, err
+		}
+	}
+	if p.E2EDir != "" {
+		// whole programs: the text for the interpreter, and the same text compiled as a twin
+		// package <pkg>/e2e_<name> (package clause, the host import and main renamed)
+		files, _ := filepath.Glob(filepath.Join(verifDir, "harness", p.E2EDir, "*.go.txt"))
+		sort.Strings(files)
+		var glue strings.Builder
+		fmt.Fprintf(&glue, "package %s\n\nimport (\n", p.PkgName)
+		var names []string
+		texts := map[string]string{}
+		for _, f := range files {
+			name := strings.TrimSuffix(filepath.Base(f), ".go.txt")
+			b, err := os.ReadFile(f)
+			if err != nil {
+				return nil, nil, err
+			}
+			names = append(names, name)
+			texts[name] = string(b)
+			fmt.Fprintf(&glue, "\te2e_%s %q\n", name, p.PkgPath+"/e2e_"+name)
+			twin := strings.Replace(string(b), "package main", "package e2e_"+name, 1)
+			twin = strings.Replace(twin, "import \"host\"", "var host struct {\n\tA, B func() int\n\tOut  func(int)\n}\n\n// Bind connects the program to its inputs and output.\nfunc Bind(a, b func() int, out func(int)) { host.A, host.B, host.Out = a, b, out }", 1)
+			twin = strings.Replace(twin, "func main()", "func Main()", 1)
+			sub := filepath.Join(dir, "e2e_"+name)
+			os.MkdirAll(sub, 0o755)
+			real := filepath.Join(sub, "prog.go")
+			if err := os.WriteFile(real, []byte(twin), 0o644); err != nil {
+				return nil, nil, err
+			}
+			v := filepath.Join(repoDir, p.PkgDir, "e2e_"+name, "prog.go")
+			sc.overlay[v] = real
+			ov[v] = []byte(twin)
+			sc.genPkgs = append(sc.genPkgs, p.PkgPath+"/e2e_"+name)
+		}
+		glue.WriteString(")\n\n// generated by the runner from harness/" + p.E2EDir + "\nvar vhPrograms = map[string]string{\n")
+		for _, n := range names {
+			fmt.Fprintf(&glue, "\t%q: %s,\n", n, strconv.Quote(texts[n]))
+		}
+		glue.WriteString("}\n\nvar vhTwinBind = map[string]func(a, b func() int, out func(int)){\n")
+		for _, n := range names {
+			fmt.Fprintf(&glue, "\t%q: e2e_%s.Bind,\n", n, n)
+		}
+		glue.WriteString("}\n\nvar vhTwinMain = map[string]func(){\n")
+		for _, n := range names {
+			fmt.Fprintf(&glue, "\t%q: e2e_%s.Main,\n", n, n)
+		}
+		glue.WriteString("}\n")
+		if err := add("zz_verif_e2e_gen.go", []byte(glue.String())); err != nil {
+			return nil, nil, err
+		}
+	}
+	if p.GenAST {
+		// placeholder, replaced by genAST once the native front end has produced the trees
+		if err := add("zz_verif_astgen.go", []byte("package "+p.PkgName+"\n\nfunc vhBuildAST(i *Interpreter, name string) (string, *node) { return \"\", nil }\n")); err != nil {
 			return nil, nil, err
 		}
 	}
@@ -196,6 +254,23 @@ func newScratch(p *Prop, withTests bool) (*scratch, map[string][]byte, error) {
 }
 
 func (sc *scratch) cleanup() { os.RemoveAll(sc.dir) }
+
+// genAST runs the native dump test and replaces the placeholder builder file.
+func (sc *scratch) genAST(p *Prop, ov map[string][]byte) error {
+	out, err := sc.goTest(p, "^TestVerifDumpAST$", nil, false, 10*time.Minute)
+	b := strings.Index(out, "//VAST-BEGIN\n")
+	e := strings.Index(out, "//VAST-END")
+	if b < 0 || e < b {
+		return fmt.Errorf("the native front end produced no trees (%v): %s", err, tail(out, 6))
+	}
+	src := []byte(out[b+len("//VAST-BEGIN\n") : e])
+	real := filepath.Join(sc.dir, "zz_verif_astgen.go")
+	if err := os.WriteFile(real, src, 0o644); err != nil {
+		return err
+	}
+	ov[filepath.Join(repoDir, p.PkgDir, "zz_verif_astgen.go")] = src
+	return nil
+}
 
 func goEnv() []string {
 	return append(os.Environ(), "GOFLAGS=-mod=mod", "GOPROXY=off", "GOSUMDB=off", "GOTOOLCHAIN=local")
@@ -300,23 +375,23 @@ func (sc *scratch) replay(p *Prop, cases []replayCase) ([]replayResult, string, 
 }
 
 type obligResult struct {
-	O       Oblig
-	E       *sym.Engine
-	Err     string
-	Wall    time.Duration
+	O    Oblig
+	E    *sym.Engine
+	Err  string
+	Wall time.Duration
 }
 
 type sampleRec struct {
-	Obligation string `json:"obligation"`
-	Harness    string `json:"harness"`
-	Verdict    string `json:"verdict"`
-	Paths      int    `json:"paths"`
-	Queries    int    `json:"queries"`
-	PathQueriesProved int `json:"assert_queries_unsat"`
-	Solver     string `json:"solver"`
-	SolverS    float64 `json:"solver_time_s"`
-	Bounds     string `json:"bounds,omitempty"`
-	Model      map[string]string `json:"counterexample,omitempty"`
+	Obligation        string            `json:"obligation"`
+	Harness           string            `json:"harness"`
+	Verdict           string            `json:"verdict"`
+	Paths             int               `json:"paths"`
+	Queries           int               `json:"queries"`
+	PathQueriesProved int               `json:"assert_queries_unsat"`
+	Solver            string            `json:"solver"`
+	SolverS           float64           `json:"solver_time_s"`
+	Bounds            string            `json:"bounds,omitempty"`
+	Model             map[string]string `json:"counterexample,omitempty"`
 }
 
 func runCheck(id, tier string) int {
@@ -366,6 +441,13 @@ func runCheck(id, tier string) int {
 		valCh <- valRes{n, out, err}
 	}()
 
+	if p.GenAST {
+		if err := sc.genAST(p, ov); err != nil {
+			fmt.Println("INCONCLUSIVE: cannot obtain the program trees from the native front end:", err)
+			writeEvidence(evPath, id, tier, seed, time.Since(t0), nil, nil, 0, []string{"ast generation: " + err.Error()}, 0, p)
+			return 0
+		}
+	}
 	prog, err := sym.Load(repoDir, []string{"./" + p.PkgDir}, ov, []string{p.PkgPath}, nil)
 	if err != nil {
 		fmt.Println("INCONCLUSIVE: cannot load/build SSA for", p.PkgPath, "with harness overlay:")
@@ -381,6 +463,9 @@ func runCheck(id, tier string) int {
 	}
 	defer base.Close()
 	for _, ip := range p.InlinePkgs {
+		base.InlinePkgs[ip] = true
+	}
+	for _, ip := range sc.genPkgs {
 		base.InlinePkgs[ip] = true
 	}
 	if p.Setup != nil {
@@ -654,24 +739,24 @@ func runCheck(id, tier string) int {
 		fmt.Println("INCONCLUSIVE:", inc)
 	}
 	cov := map[string]interface{}{
-		"states":      maxInt(states, 1),
-		"transitions": maxInt(transitions, 1),
+		"states":                        maxInt(states, 1),
+		"transitions":                   maxInt(transitions, 1),
 		"traces_validated_against_impl": vr.n,
-		"samples":     samplesOrPlaceholder(samples),
-		"obligations": nObl,
-		"discharged":  nDis,
-		"queries":     queries,
-		"solver_time_s": solverT.Seconds(),
-		"functions_encoded": keys(funcs),
-		"summaries_used":    keys(summaries),
-		"stubs":             append(keys(stubs), p.Stubs...),
-		"bounds":            p.Bounds,
-		"outside":           p.Outside,
-		"inconclusive":      inconclusive,
-		"known_findings_seen": knownSeen,
-		"source_hash":       prog.SourceHash(),
-		"ssa_load_s":        prog.LoadTime.Seconds(),
-		"technique":         "symbolic execution of go/ssa + SMT (z3), counterexamples replayed natively",
+		"samples":                       samplesOrPlaceholder(samples),
+		"obligations":                   nObl,
+		"discharged":                    nDis,
+		"queries":                       queries,
+		"solver_time_s":                 solverT.Seconds(),
+		"functions_encoded":             keys(funcs),
+		"summaries_used":                keys(summaries),
+		"stubs":                         append(keys(stubs), p.Stubs...),
+		"bounds":                        p.Bounds,
+		"outside":                       p.Outside,
+		"inconclusive":                  inconclusive,
+		"known_findings_seen":           knownSeen,
+		"source_hash":                   prog.SourceHash(),
+		"ssa_load_s":                    prog.LoadTime.Seconds(),
+		"technique":                     "symbolic execution of go/ssa + SMT (z3), counterexamples replayed natively",
 	}
 	writeEvidenceCov(evPath, id, tier, seed, time.Since(t0), cov, p.Assumptions, nViol)
 	fmt.Printf("%s %s: obligations=%d discharged=%d violations=%d known=%d inconclusive=%d paths=%d queries=%d solver=%.1fs wall=%.1fs\n",
